@@ -541,6 +541,10 @@ class UniqueVariableNamesChecker(ValidationVisitor):
     def leave_operation_definition(self, _node):
         self._variables.clear()
 
+    # Variable definitions of a fragment (experimental) are a scope of their own.
+    enter_fragment_definition = enter_operation_definition
+    leave_fragment_definition = leave_operation_definition
+
     def enter_variable_definition(self, node):
         name = node.variable.name.value
         if name in self._variables:
